@@ -383,3 +383,46 @@ def run_enumerated(
             probes()
     st.finish()
     return _result(ctx, st, nontrivial_fn)
+
+
+def run_walk(
+    prop: str,
+    seed: int,
+    run: int,
+    profile: dict,
+    oracle_factory,
+    actors_fn,
+    world_fn=None,
+    world_kw: dict | None = None,
+    nontrivial_fn=None,
+) -> RunResult:
+    """Generic loop: a list of (actor, weight) built by actors_fn(ctx, rng)."""
+    env.fresh_run_state()
+    observe.reset_run_caches()
+    wr = stream(seed, prop, run, "world")
+    world = world_fn(wr) if world_fn else W.gen_world(wr, **(world_kw or {}))
+    ctx = Ctx(world, profile, oracle_factory())
+    st = Stepper(ctx)
+    pr = stream(seed, prop, run, "programs")
+    il = stream(seed, prop, run, "interleave")
+    actors = actors_fn(ctx, pr)
+    while ctx.step_no < profile["max_steps"] and not st.violations:
+        snap = st.cur
+        cands = [(a, w) for a, w in actors if a.runnable(snap)]
+        if not cands:
+            break
+        tot = sum(w for _, w in cands)
+        r = il.random() * tot
+        acc = 0.0
+        chosen = cands[-1][0]
+        for a, w in cands:
+            acc += w
+            if r < acc:
+                chosen = a
+                break
+        op = chosen.next_op(pr, snap, ctx)
+        if op is None:
+            continue
+        st.step(getattr(chosen, "name", "?"), op)
+    st.finish()
+    return _result(ctx, st, nontrivial_fn)
